@@ -544,3 +544,6 @@ def check(run, prog):
     rule_statement_extent(run, prog)         # R-7.7
     from .snippet_rules import rule_unrecognisable_fragments
     rule_unrecognisable_fragments(run, prog)  # R-7.8
+    # which scope a `{` opens is read off the statement record: a record that forgets (a window, a cap) loses the owner
+    from .c14_history import rule_history_append_only
+    rule_history_append_only(run, prog, "R-7.9")
